@@ -77,14 +77,15 @@ def check_expr(run: core.Run, prop: str, e: E, envs, truth, stats) -> None:
             rep2 = dict(rep, env={k: (sorted(v) if isinstance(v, set) else v) for k, v in env.items()})
             f = core.Failure(key + "|" + enc_env(env), f"{e.show()} = {m!r} evaluates to {got} in an environment where "
                              f"the operands give {want}", rep2)
-            if mk.g2_applies(e.leaves(), env):
-                f.family = "version-in-substring"
+            fam = mk.known_family(e.leaves(), env)
+            if fam:
+                f.family = fam
                 run.fail(f)
                 continue
             run.fail(f)
             break
     if prop == "C02":
-        envs = [env for env in envs if not mk.g2_applies(e.leaves(), env)]
+        envs = [env for env in envs if not mk.known_family(e.leaves(), env)]
         if m.is_empty() and any(truth(env) for env in envs):
             run.fail(core.Failure(key + "|is_empty", f"{e.show()} reports is_empty() but an environment satisfies it", rep))
         if m.is_any() and not all(truth(env) in (True, None) for env in envs):
@@ -197,6 +198,7 @@ def run_single_layer(run: core.Run, stats) -> None:
 def run_c02(run: core.Run, n: int) -> None:
     stats = {"timeouts": 0, "oracle": 0, "evals": 0, "eval_budget": n}
     run_single_layer(run, stats)
+    run_d4a(run, "C02", stats)
     for i in range(n // 6):
         for e in complement_exprs(run.rng):
             if e.kind in ("and", "or"):
@@ -231,6 +233,32 @@ def run_c02(run: core.Run, n: int) -> None:
     run.extra.update(time_budget_skips=stats["timeouts"], oracle_evaluations=stats["oracle"])
 
 
+def run_d4a(run: core.Run, prop: str, stats) -> None:
+    """targeted stream for the marker consequences of known finding D4a (found by the proof: C06.NoD4a is forced)"""
+    for lo, hi, full in mk.D4A_PAIRS:
+        X, Y = full.split(".")[:2]
+        env = {"python_full_version": full, "python_version": f"{X}.{Y}", "platform_release": "5.10", "implementation_version": full,
+               "platform_version": "#1", "extra": set(), "extras": set(), "dependency_groups": set()}
+        for k, v in mk.STR_VARS.items():
+            env[k] = v[0]
+        if prop == "C02":
+            x, y = mk.parse_marker(lo), mk.parse_marker(hi)
+            for comb, e in (("and", E("and", E("leaf", lo), E("leaf", hi))), ("and", E("and", E("leaf", hi), E("leaf", lo)))):
+                check_expr(run, "C02", e, [env], lambda en, x=x, y=y: ev(x, en) and ev(y, en), stats)
+        else:
+            text = f"{lo} and {hi}"
+            m = mk.parse_marker(text)
+            run.add(core.Case("C03.parse", "m.expr\t" + mk.leaf_tokens(text), enc_marker(m) + "\t" + str(m)))
+            want = PkgMarker(text).evaluate(pkg_env(env))
+            got = ev(m, env)
+            stats["oracle"] += 1
+            if got != want:
+                f = core.Failure("eval|" + text + "|" + enc_env(env), f"parse_marker({text!r}).evaluate = {got}, packaging says {want}",
+                                 {"op": "eval", "text": text, "env": {k: (sorted(v) if isinstance(v, set) else v) for k, v in env.items()}})
+                f.family = mk.known_family([text], env)
+                run.fail(f)
+
+
 def pkg_env(env):
     e = dict(env)
     ex = env.get("extra")
@@ -241,6 +269,7 @@ def pkg_env(env):
 def run_c03(run: core.Run, n: int) -> None:
     rng = run.rng
     stats = {"timeouts": 0, "oracle": 0}
+    run_d4a(run, "C03", stats)
     for _ in range(n):
         text = mk.marker_text(rng, rng.choice([0, 1, 2, 3]))
         envs = mk.envs_for([text], rng, 10)
@@ -268,8 +297,9 @@ def run_c03(run: core.Run, n: int) -> None:
             if got != want:
                 f = core.Failure("eval|" + text + "|" + enc_env(denv), f"parse_marker({text!r}).evaluate = {got}, packaging says {want}",
                                  {"op": "eval", "text": text, "env": {k: (sorted(v) if isinstance(v, set) else v) for k, v in denv.items()}})
-                if mk.g2_applies([text], denv):
-                    f.family = "version-in-substring"
+                fam = mk.known_family([text], denv)
+                if fam:
+                    f.family = fam
                     run.fail(f)
                     continue
                 run.fail(f)
@@ -509,7 +539,7 @@ def search(prop: str, run: core.Run) -> None:
             except Exception:  # noqa: BLE001
                 continue
             for env in envs:
-                if mk.g2_applies(e.leaves(), env):
+                if mk.known_family(e.leaves(), env):
                     continue
                 a, b, r = ev(x, env), ev(y, env), ev(m, env)
                 want = (a and b) if e.kind == "and" else (a or b)
@@ -525,7 +555,7 @@ def search(prop: str, run: core.Run) -> None:
             vs = variables(src)
             names = set(e.args[1]) if e.kind == "only" else None
             for env in envs:
-                if mk.g2_applies(e.leaves(), env):
+                if mk.known_family(e.leaves(), env):
                     continue
                 a, r = ev(src, env), ev(m, env)
                 bad = False
